@@ -62,14 +62,14 @@ chk("C20", "exploration", wq=4, wt=8)
 # ("observed nothing" is inconclusive, never "held"). All of them are in the hundreds or more per quick run.
 REQUIRED = {
     "C01": ["histories_on_real_driver", "histories_with_wide_rule_ids", "fault_executions"],
-    "C04": ["refused_removals", "fault_plans", "sessions_established", "negative_responses"],
-    "C05": ["refused_removals", "fault_plans", "sessions_established"],
+    "C04": ["refused_removals", "fault_plans", "sessions_established", "negative_responses", "late_answers_to_report_requests"],
+    "C05": ["refused_removals", "fault_plans", "sessions_established", "late_answers_to_report_requests", "periodic_ticks_on_the_real_driver"],
     "C06": ["duplicates_in_window", "sends_after_expiry", "tx_events_on_an_id_shared_with_a_retained_request"],
     "C07": ["hostile_datagrams", "unaddressed_sessions_of_the_sender_checked"],
     "C09": ["retransmissions", "answered", "abandoned", "real_timer_requests",
             "stale_expiries_observed(answer_handled_before_the_queued_expiry)"],
     "C10": ["kernel_reports", "usage_report_ies", "refused_urr_removals", "history_report_requests"],
-    "C11": ["usage_report_ies", "refused_removals", "concurrent_operations", "report_requests_given_up_after_all_retries(steps)"],
+    "C11": ["usage_report_ies", "refused_removals", "concurrent_operations", "report_requests_given_up_after_all_retries(steps)", "periodic_reports_from_ticks"],
     "C12": ["termination_reports", "immediate_reports", "refused_removals"],
     "C13": ["gtpu_packets", "buffer_notifications", "release_transitions_with_packets", "refused_release_transitions_with_packets"],
     "C14": ["writer_datagrams", "writer_datagrams_through_the_buffering_listener"],
